@@ -11,7 +11,7 @@ from findings import Findings
 from vlib import is_diagnosed, Machinery
 
 NAMES = {"n1": "a", "n7": "_func07", "n8": "_funct08", "n9": "_functi09", "n17": "_asm_inthandler21", "n40": "_a_very_long_global_symbol_name_of_forty",
-         "p9a": "_io_out8a", "p9b": "_io_out8b", "sub": "_asm_inthandler2", "suf": "_inthandler21"}
+         "p9a": "_io_out8a", "p9b": "_io_out8b", "sub": "_asm_inthandler2", "suf": "_inthandler21", "pre3": "abc_inthandler21"}
 FILES = [None, "a", "sixteen_chars.nas", "eighteen_chars.nas", "nineteen_chars_.nas", "a_source_file_name_of_forty_characters.n",
          "thirty_six_characters_long_name_.nas", "f" * 4608]
 TEXTS = [0, 1, 3, 4096, 70000]
